@@ -69,6 +69,10 @@ def truthy(v: Val):
             if info.kind == "indexed":
                 return info.n != 0
         raise Unsupported("truthiness of an iterator / generator expression")
+    if v.is_py and type(v.py).__name__ == "BoundMethod":
+        # `if obj.attr:` where attr is not a declared field: the engine only knows it as "some method"; if it is a
+        # property in reality its truth value is data — refusing is the only sound answer
+        raise Unsupported(f"truthiness of the attribute '{v.py.name}' (not a declared field; a property?)")
     if v.is_py:
         if isinstance(v.py, (list, tuple, dict, set, frozenset)) or not _has_val(v.py):
             if v.ty is PYOBJ and not isinstance(v.py, (list, tuple, dict, set, frozenset, range)):
@@ -437,6 +441,12 @@ def ite(c, a: Val, b: Val) -> Val:
             pass
         if not isinstance(a.py, _CT) and not isinstance(b.py, _CT):
             raise PyMerge(f"cannot merge the python-level values {a.py!r} and {b.py!r}")
+    if j is None:
+        # a symbolic list against a concrete tuple / list (`languages or ()`): both iterate alike
+        if isinstance(a.ty, T.List) and not a.is_py and b.is_py and isinstance(b.py, (tuple, list)):
+            j = a.ty
+        elif isinstance(b.ty, T.List) and not b.is_py and a.is_py and isinstance(a.py, (tuple, list)):
+            j = b.ty
     if j is None:
         if a.ty is PYOBJ and b.ty is not PYOBJ:
             j = b.ty
